@@ -119,7 +119,9 @@ inline void inc_file(IncState &st, const std::string &name) {
     if (i + 1 >= ts.size() || ts[i + 1].k != FNAME) {
       int line = (i + 1 < ts.size()) ? ts[i + 1].line : (ts[i].line);  // implementation reports the line of what it read
       st.o.errs.push_back({E_EXPECTED_FILENAME, name, line, ""});
-      if (st.o.exact_prefix < 0) st.o.exact_prefix = (long long)st.o.toks.size();
+      // only a directive that is followed by some other token leaves something open (is that token dropped?); a
+      // directive at the very end of its file does not
+      if (i + 1 < ts.size() && st.o.exact_prefix < 0) st.o.exact_prefix = (long long)st.o.toks.size();
       i++;  // the following token is consumed by the directive (left open by the documentation)
       continue;
     }
